@@ -375,10 +375,16 @@ func (o *oidcHandler) retrieveTokens(ctx context.Context, log telemetry.Logger, 
 		return
 	}
 
-	// Knock 5 seconds off the expiry time to take into account the time it may
-	// have taken to retrieve the token.
-	expiresIn := time.Duration(bodyTokens.ExpiresIn)*time.Second - 5
-	accessTokenExpiration := o.clock.Now().Add(expiresIn)
+	// expires_in is optional in the token response. When the provider does not send it the
+	// lifetime of the access token is unknown, which is recorded as the zero time (as the
+	// refresh path does), and not as "expired already".
+	var accessTokenExpiration time.Time
+	if bodyTokens.ExpiresIn > 0 {
+		// Knock 5 seconds off the expiry time to take into account the time it may
+		// have taken to retrieve the token.
+		expiresIn := time.Duration(bodyTokens.ExpiresIn)*time.Second - 5
+		accessTokenExpiration = o.clock.Now().Add(expiresIn)
+	}
 
 	log.Debug("saving tokens to session store")
 	if err := store.SetTokenResponse(ctx, sessionID, &oidc.TokenResponse{
